@@ -2942,6 +2942,11 @@ KNOWN_SHAPES = [
     ("F16", "(declare-fun x () Int)(assert (= x +3))", "tolerant-numeral", "+3"),
     ("F16", "(declare-fun x () Int)(assert (= x 007))", "tolerant-numeral", "007"),
     ("F16", "(declare-fun x () Int)(assert (= x |5|))", "tolerant-numeral", "|5|"),
+    # spellings Python's Fraction()/int() accept beyond the ones above; the Lean model does not follow them (NO_K)
+    ("F16", "(declare-fun x () Int)(assert (= x 1_0))", "tolerant-literal-unmodelled", "1_0"),
+    ("F16", "(declare-fun x () Int)(assert (= x |1_0|))", "tolerant-literal-unmodelled", "|1_0|"),
+    ("F16", "(declare-fun x () Int)(assert (= x \u0663))", "tolerant-literal-unmodelled", "non-ascii-digit"),
+    ("F16", "(declare-fun s () String)(assert (= s |\"abc\"|))", "tolerant-literal-unmodelled", "quoted-symbol-as-string"),
     ("F15b", "(declare-fun x () Int)(get-value (x foo))", "lone-unknown-name", "get-value"),
     ("F15b", "(maximize foo)", "lone-unknown-name", "maximize"),
     ("F15b", "(define-fun f () String foo)", "lone-unknown-name", "define-fun"),
@@ -2969,7 +2974,52 @@ KNOWN_SHAPES = [
 ]
 # shapes on which the Lean model deliberately does not mirror the code (it answers an error where the code returns a
 # non-term): not sent to the correspondence run
-NO_K_KINDS = {"bare-function-name"}
+NO_K_KINDS = {"bare-function-name", "tolerant-literal-unmodelled"}
+
+# regression witnesses of repaired defects: (id, text, must be rejected?, expected command names when accepted)
+REPAIRED_SHAPES = [
+    # P14: atom() cached the String fallback of an unknown name: after (get-value (foo)) `foo` was a String constant
+    ("P14", "(declare-fun s () String)(get-value (foo))(assert (= s foo))", True, None, "cached-unknown-name"),
+    ("P14", "(declare-fun s () String)(maximize foo)(define-fun g () Bool (= s foo))", True, None, "cached-unknown-name"),
+    # P15: (/ c d) was folded for any two constants
+    ("P15", "(declare-fun u () Real)(assert (= u (/ #b01 #b11)))", True, None, "quotient-of-non-numeric-constants"),
+    ("P15", "(declare-fun u () Real)(assert (= u (/ true 2)))", True, None, "quotient-of-non-numeric-constants"),
+    # P16: CR is white space and ends a comment
+    ("P16", "(declare-fun p () Bool)(assert p); c\r(assert false)\n(check-sat)", False,
+     ["declare-fun", "assert", "assert", "check-sat"], "carriage-return"),
+    ("P16", "(declare-fun p () Bool)\r\n(assert p) ; x\r\n(check-sat)\r\n", False,
+     ["declare-fun", "assert", "check-sat"], "carriage-return"),
+]
+
+
+def run_repaired_shapes(ctx):
+    for fid, text, must_reject, names, kind in REPAIRED_SHAPES:
+        K_TEXTS.append(("repaired-" + kind, text))
+        res = run_impl(text)
+        ctx.case("repaired:" + text)
+        if must_reject:
+            if res[0] == "ok":
+                ctx.report_s({"oracle": "reject", "kind": kind}, "ill-formed text accepted again (%s, %s)" % (fid, kind),
+                             {"text": text, "kind": kind})
+        elif res[0] == "err":
+            ctx.report_s({"oracle": "accept", "kind": kind, "error": res[1]},
+                         "text no longer accepted (%s, %s): %s %s" % (fid, kind, res[1], res[2]), {"text": text})
+        else:
+            got = [c.name for c in res[1].commands]
+            if got != names:
+                ctx.report_s({"oracle": "commands", "kind": kind},
+                             "commands %r read, %r expected (%s)" % (got, names, fid), {"text": text})
+    # P17 (known): a declared function named like one of the parser's own non-standard tokens is not applied
+    text = "(declare-fun pow (Int Int) Int)(assert (= (pow 2 3) 9))"
+    K_TEXTS.append(("known-parser-token-function", text))
+    res = run_impl(text)
+    ctx.case("known:" + text)
+    if res[0] == "ok":
+        t = res[1].commands[-1].args[0]
+        if not any(v.symbol_name() == "pow" for v in t.get_free_variables()):
+            ctx.report_s({"oracle": "meaning", "shape": "declared-function-named-like-parser-token", "token": "pow"},
+                         "the application of the declared function `pow` was read as the built-in operator: %s"
+                         % semantic.readable(t), {"text": text})
 
 
 def run_known_shapes(ctx):
@@ -3082,6 +3132,7 @@ def run(ctx):
         marks.append((name, _time.time()))
     ctx.count("seconds_before_run", int(round(ctx.budget_s - ctx.time_left())))
     run_known_shapes(ctx)
+    run_repaired_shapes(ctx)
     run_f10_f17(ctx, ig, lines, meta)
     # the dedicated streams are small and run first: they are not cut when building the Lean side took most of the budget
     run_let_witnesses(ctx, ig, lines, meta)
